@@ -327,7 +327,7 @@ static void d_entry(int i, spifopt_t *e)
     };
     *e = t[i];
 }
-static void d_desc(uint64_t idx, void *ctx, char *b, size_t n) { (void) ctx; if (idx >= 80) { if (idx >= 94) { snprintf(b, n, "table {STR('o', \"opt\")}: prog [%s] [first], then in the same process prog [%s] [second]; the first value is kept by the program", idx == 94 ? "-o" : "--opt", idx == 94 ? "-o" : "--opt"); return; } if (idx >= 86) { uint64_t k = idx - 86; snprintf(b, n, "table {SPIFOPT_OPTION('o', \"old\", %s | DEPRECATED%s)}: prog [-o] [7] [word] in a %s pass", k >> 2 ? "STRING" : "INTEGER", k & 1 ? " | PREPARSE" : "", (k >> 1) & 1 ? "pre-parse" : "normal"); return; } if (idx >= 84) { snprintf(b, n, "table {BOOL('\\xe9', mask 0x80000004) on an unsigned long whose upper half holds 0x5a5a5a5a}: prog [--eacute=%s]", idx == 84 ? "no" : "yes"); return; } snprintf(b, n, "table {BOOL('\\xe9'), INT('\\x80')}: prog [-%s]%s", (idx - 80) % 2 ? "\\x80] [7" : "\\xe9", (idx - 80) / 2 ? " with remove-args" : ""); return; } snprintf(b, n, "one-entry table built with %s: fields, then prog [%s] in a %s pass", DM[idx / 4], (idx / 2) % 2 ? "-o 1" : "--opt=1", idx % 2 ? "pre-parse" : "normal"); }
+static void d_desc(uint64_t idx, void *ctx, char *b, size_t n) { (void) ctx; if (idx >= 96) { snprintf(b, n, "tables A {BOOL a, INT q, BOOL b} and B {STR x \"first\", STR x \"second\", BOOL a} used in turn: B [-x one], A [-q 5], B [-x two], A [-b], B [-a]"); return; } if (idx >= 80) { if (idx >= 94) { snprintf(b, n, "table {STR('o', \"opt\")}: prog [%s] [first], then in the same process prog [%s] [second]; the first value is kept by the program", idx == 94 ? "-o" : "--opt", idx == 94 ? "-o" : "--opt"); return; } if (idx >= 86) { uint64_t k = idx - 86; snprintf(b, n, "table {SPIFOPT_OPTION('o', \"old\", %s | DEPRECATED%s)}: prog [-o] [7] [word] in a %s pass", k >> 2 ? "STRING" : "INTEGER", k & 1 ? " | PREPARSE" : "", (k >> 1) & 1 ? "pre-parse" : "normal"); return; } if (idx >= 84) { snprintf(b, n, "table {BOOL('\\xe9', mask 0x80000004) on an unsigned long whose upper half holds 0x5a5a5a5a}: prog [--eacute=%s]", idx == 84 ? "no" : "yes"); return; } snprintf(b, n, "table {BOOL('\\xe9'), INT('\\x80')}: prog [-%s]%s", (idx - 80) % 2 ? "\\x80] [7" : "\\xe9", (idx - 80) / 2 ? " with remove-args" : ""); return; } snprintf(b, n, "one-entry table built with %s: fields, then prog [%s] in a %s pass", DM[idx / 4], (idx / 2) % 2 ? "-o 1" : "--opt=1", idx % 2 ? "pre-parse" : "normal"); }
 /* short letters above 0x7f (a table is free to use any byte as a letter) */
 static void d_highbit(uint64_t k)
 {
@@ -400,8 +400,34 @@ static void d_second_parse(uint64_t k)
     if (d_str) { FREE(d_str); d_str = NULL; }
     mc_nontrivial();
 }
+/* two tables used in turn by one process; the second declares a letter twice (the first entry with a letter owns it, whatever was looked up before and in which table) */
+static void d_two_tables(void)
+{
+    static spifopt_t A[3], B[3]; static const char *va, *vb; static int qa; const char *shape = "two option tables used in turn"; mc_set_shape(shape);
+    spifopt_t ta[3] = { SPIFOPT_BOOL('a', "alpha", "d", d_flags, 0x01), SPIFOPT_INT('q', "quantity", "d", qa), SPIFOPT_BOOL('b', "beta", "d", d_flags, 0x02) };
+    spifopt_t tb[3] = { SPIFOPT_STR('x', "first", "d", va), SPIFOPT_STR('x', "second", "d", vb), SPIFOPT_BOOL('a', "again", "d", d_flags, 0x08) };
+    memcpy(A, ta, sizeof A); memcpy(B, tb, sizeof B); va = vb = NULL; qa = 0; d_flags = 0xf0;
+    static const char *LINES[5][3] = { { "-x", "one", "B" }, { "-q", "5", "A" }, { "-x", "two", "B" }, { "-b", NULL, "A" }, { "-a", NULL, "B" } };
+    for (int r = 0; r < 5; r++) {
+        char *orig[3]; int ac = 0; orig[ac++] = mc_heapstr("prog"); orig[ac++] = mc_heapstr(LINES[r][0]); if (LINES[r][1]) orig[ac++] = mc_heapstr(LINES[r][1]);
+        char *argv[4] = { orig[0], orig[1], ac > 2 ? orig[2] : NULL, NULL };
+        if (LINES[r][2][0] == 'A') { SPIFOPT_OPTLIST_SET(A); } else { SPIFOPT_OPTLIST_SET(B); }
+        SPIFOPT_NUMOPTS_SET(3); SPIFOPT_ALLOWBAD_SET(9); SPIFOPT_BADOPTS_SET(0); SPIFOPT_HELPHANDLER_SET(help_stub); spifopt_settings.flags = 0; g_diag = 0;
+        spifopt_parse(ac, argv);
+        const char *wa = r >= 2 ? "two" : "one"; unsigned long wf = 0xf0 | (r >= 3 ? 0x02 : 0) | (r >= 4 ? 0x08 : 0);
+        if (!va || strcmp(va, wa) || vb) FAIL("spifopt_parse", "model:first-entry-owns-the-letter", shape, "after line %d (table %s: %s %s) the first 'x' entry holds %s and the second %s; expected \"%s\" and nothing", r + 1, LINES[r][2], LINES[r][0], LINES[r][1] ? LINES[r][1] : "", va ? va : "nothing", vb ? vb : "nothing", wa);
+        if (r >= 1 && qa != 5) FAIL("spifopt_parse", "model:integer", shape, "-q 5 in table A left %d", qa);
+        if (d_flags != wf) FAIL("spifopt_parse", "model:boolean-bits", shape, "after line %d flags are 0x%lx, expected 0x%lx", r + 1, d_flags, wf);
+        if (SPIFOPT_BADOPTS_GET()) FAIL("spifopt_parse", "model:bad-option-on-wellformed-line", shape, "%u bad options on line %d", (unsigned) SPIFOPT_BADOPTS_GET(), r + 1);
+        for (int i = 0; i < ac; i++) free(orig[i]);
+    }
+    if (va) FREE(va); if (vb) FREE(vb);
+    SPIFOPT_OPTLIST_SET(OPTS); SPIFOPT_NUMOPTS_SET(NOPT);
+    mc_nontrivial();
+}
 static void d_case(uint64_t idx, void *ctx)
 {
+    if (idx >= 96) { (void) ctx; d_two_tables(); return; }
     if (idx >= 94) { (void) ctx; d_second_parse(idx - 94); return; }
     if (idx >= 86) { (void) ctx; d_deprecated(idx - 86); return; }
     if (idx >= 80) { (void) ctx; d_highbit(idx - 80); return; }
@@ -500,7 +526,7 @@ int main(int argc, char **argv)
     for (g_k = 0; g_k <= K; g_k++) if (!mc_e2_level("wellformed", g_k, lines_of(g_k), a_case, a_desc, NULL)) break;
     for (g_k = 0; g_k <= N; g_k++) if (!mc_e2_level("hostile", g_k, mc_words_of_len(NTOK, g_k) * 4, b_case, b_desc, NULL)) break;
     mc_e2_level("bundles", 1, (uint64_t) NBUN * 8, c_case, c_desc, NULL);
-    mc_e2_level("constructors", 1, 20 * 4 + 6 + 8 + 2, d_case, d_desc, NULL);
+    mc_e2_level("constructors", 1, 20 * 4 + 6 + 8 + 2 + 1, d_case, d_desc, NULL);
     mc_e2_level("large_option_table", 1000, (uint64_t) NBIGT * 4, g_case, g_desc, NULL);
     mc_e2_level("long_argument_lists", 70000, (uint64_t) NLONGL * 3, e_case, e_desc, NULL);
     return mc_finish();
